@@ -34,7 +34,7 @@ def rule_inc_gate(check):
             sites.append((f, n))
     check.floor(R, "inc call sites outside telemetry.rs", len(sites), 1)
     for f, n in sites:
-        if f.name == "update_status" and (f.rec.get("self_ty") or "").split("<")[0].endswith("OperationTransformVisitor"):
+        if f.name == "update_status" and any((p_.get("ty") or "").endswith("Status") for p_ in f.rec.get("params", [])):
             # the reporting function is evaluated as a whole: on the nine (current, new) pairs it
             # counts exactly once when the result is Modified and the rewrite not cancelled
             try:
@@ -52,6 +52,8 @@ def rule_inc_gate(check):
                 e = a[-1] if isinstance(a[-1], dict) else None
                 if a[0] in ("eq", "variant", "arm_not"):
                     continue
+                if a[0] == "call" and _is_status_predicate(prog, a[1]):
+                    continue  # evaluated by the status table above
                 extra.append(hir.describe(e.get("e", e) if e and "k" not in e else e)[:80] if e else str(a[:3]))
             check.expect(not under and not extra, R, "%s/%s/only-gate" % (R, f.name), hir.loc(n), "every Modified result that reaches update_status is counted", "inc is not called for (current, new: calls) %s%s: a hook can be emitted without being counted" % ("; ".join(under) or "-", (" and is additionally gated by " + "; ".join(extra)) if extra else ""))
             continue
@@ -218,6 +220,18 @@ def rule_tags(check):
             continue
         tags = {norm(o) for o in pv.resolve_params(pv.origins(f, hir.call_args(n)[2])) if o[0][0] == "param"}
         check.expect(tags == gate_names and bool(tags), R, R + "/Call/tag-is-looked-up-name", hir.loc(n), "method tags = the names looked up at the hook gates (%d origins)" % len(tags), "the tag reported for method hooks is not the name that was looked up in the configuration: tags %s vs looked-up names %s" % (sorted(x[1] for x in tags - gate_names) or "(subset)", sorted(x[1] for x in gate_names - tags)))
+
+
+def _is_status_predicate(prog, name):
+    """a crate function `-> bool` whose result is a comparison of the file status with a Status value"""
+    from ..prov import return_exprs
+
+    for h in prog.user_fns:
+        if h.name == name and h.rec.get("ret") == "bool" and h.body is not None:
+            rs = return_exprs(h.body)
+            if len(rs) == 1 and S.status_atomize(h, rs[0]) is not None:
+                return True
+    return False
 
 
 def _method(prog, self_suffix, name, trait=None):
